@@ -45,6 +45,7 @@ func Run(tier string, seed int64, outDir string) *common.Meta {
 	runShadowed(meta, seed, outDir)
 	runSynthClaims(meta, outDir)
 	runCaseOrderGeneric(meta, outDir)
+	runCaseOrderLocal(meta, seed, outDir)
 	meta.Rule = "distinct_nontrivial = number of distinct generated expressions / type switches on which at least one of the claim-producing checkers fired (each compared with the model matcher in Coq and executed with instrumentation)"
 	return meta
 }
@@ -71,7 +72,7 @@ func genClaimExpr(g *exprgen.G, r interface{ Intn(int) int }) string {
 	}
 	floatX := func() string { return pick("p", "q", "p", "ff()", "p + 1.5", "hf(p)", "mf", "mg", "fmf()") }
 	constI := func() string {
-		return pick("0", "1", "2", "5", "7", "9", "10", "-3", "2 - 1", "(4)", "3 + 4", "0x10", "010")
+		return pick("0", "1", "2", "5", "7", "9", "10", "-3", "2 - 1", "(4)", "3 + 4", "0x10", "010", "cLim", "cLo", "cHi", "cT", "cLim + 1", "-cOne")
 	}
 	var e string
 	switch n := r.Intn(108); {
@@ -118,6 +119,12 @@ func genClaimExpr(g *exprgen.G, r interface{ Intn(int) int }) string {
 			base := []float64{0.5, 1.5, 2, 7.25, -1.5, 10}[r.Intn(6)]
 			d := []float64{0, 0, 0.5, 0.5, 1, 3, -1, -4}[r.Intn(8)]
 			c1, c2 = strconv.FormatFloat(base, 'f', -1, 64), strconv.FormatFloat(base+d, 'f', -1, 64)
+			if r.Intn(6) == 0 {
+				c1 = pick("cF", "cLo", "cLim")
+			}
+			if r.Intn(6) == 0 {
+				c2 = pick("cF", "cHi", "cLim")
+			}
 		} else {
 			x = intX()
 			base := []int{0, 1, 2, 5, 7, 9, 10, -3}[r.Intn(8)]
@@ -186,19 +193,38 @@ func genClaimExpr(g *exprgen.G, r interface{ Intn(int) int }) string {
 			e = x + "[len(" + y + ")-1] == " + x + "[0]"
 		}
 	case n < 92: // dupSubExpr
-		op := pick("==", "!=", "<", ">", "<=", ">=", "&&", "||", "-", "/", "%", "+")
+		// every operator the checker's table names, on every operand type it applies to
+		op := pick("==", "!=", "<", ">", "<=", ">=", "&&", "||", "-", "/", "%", "+", "|", "&", "^", "&^")
 		var x string
+		isInt := false
 		switch r.Intn(4) {
 		case 0:
-			x = floatX()
+			x = pick(floatX(), "p + q", "q + p", "p - q")
 		case 1:
-			x = pick("s", "t", "fs()", "s + t")
+			x = pick("s", "t", "fs()", "s + t", "t + s", "s + t + s")
 		default:
-			x = intX()
+			x = pick(intX(), intX(), "a + b", "b * c", "a | b", "a & c", "a ^ b", "a - b", "a == b")
+			isInt = true
+		}
+		if !isInt && (op == "|" || op == "&" || op == "^" || op == "&^") {
+			op = pick("==", "!=", "<", ">=")
+		}
+		if x == "a == b" {
+			op = pick("==", "!=", "&&", "||")
 		}
 		y := x
-		if r.Intn(7) == 0 {
+		switch r.Intn(7) {
+		case 0:
 			y = pick("a", "b", "p", "s")
+		case 1, 2:
+			// operands that are NOT the same expression but look alike: swapped operands of the top-level
+			// operator, a re-association, another spelling of a literal
+			if i := strings.LastIndex(x, " "); i > 0 && strings.Count(x, " ") == 2 && !strings.ContainsAny(x, "()") {
+				f := strings.Fields(x)
+				y = f[2] + " " + f[1] + " " + f[0]
+			} else if x == "s + t + s" {
+				y = pick("s + (t + s)", "t + s + s")
+			}
 		}
 		switch op {
 		case "&&", "||":
@@ -214,7 +240,7 @@ func genClaimExpr(g *exprgen.G, r interface{ Intn(int) int }) string {
 				return s
 			}
 			e = wrap(b) + " " + op + " " + wrap(b2)
-		case "-", "/", "%", "+":
+		case "-", "/", "%", "+", "|", "&", "^", "&^":
 			if (op == "%" || op == "/") && (strings.ContainsAny(x, "pqf") || strings.ContainsAny(y, "pqst")) {
 				op = "-"
 			}
@@ -259,18 +285,32 @@ func genClaimExpr(g *exprgen.G, r interface{ Intn(int) int }) string {
 				e = rx + "." + m + "(" + ry + ") == 0"
 			}
 		case 0:
-			e = "strings.Contains(" + sx + ", " + sy + ")"
+			e = pick("strings.Contains", "strings.HasPrefix", "strings.HasSuffix", "strings.EqualFold") + "(" + sx + ", " + sy + ")"
 		case 1:
-			e = "strings.Index(" + sx + ", " + sy + ") >= a"
+			e = pick("strings.Index", "strings.LastIndex") + "(" + sx + ", " + sy + ") >= a"
 		case 2:
-			e = "strings.Compare(" + sx + ", " + sy + ") == 0"
+			switch r.Intn(3) {
+			case 0:
+				e = "strings.Compare(" + sx + ", " + sy + ") == 0"
+			case 1:
+				e = "strings.Replace(" + pick("s", "t", "fs()") + ", " + sx + ", " + sy + ", " + pick("-1", "a", "1") + ") == s"
+			default:
+				e = "strings.ReplaceAll(" + pick("s", "t", "fs()") + ", " + sx + ", " + sy + ") == s"
+			}
 		default:
 			bx := pick("bs", "fbs()", "[]byte(s)", "bs[:]")
 			by := bx
 			if r.Intn(5) == 0 {
 				by = pick("bs", "[]byte(t)")
 			}
-			e = "bytes.Equal(" + bx + ", " + by + ")"
+			switch r.Intn(3) {
+			case 0:
+				e = "bytes.Equal(" + bx + ", " + by + ")"
+			case 1:
+				e = pick("bytes.Contains", "bytes.HasPrefix", "bytes.HasSuffix", "bytes.EqualFold") + "(" + bx + ", " + by + ")"
+			default:
+				e = pick("bytes.Index", "bytes.LastIndex", "bytes.Compare") + "(" + bx + ", " + by + ") >= a"
+			}
 		}
 	default:
 		e = g.BoolExpr()
@@ -470,7 +510,15 @@ func runExprClaims(meta *common.Meta, seed int64, outDir string, n int) {
 			if len(ce.Args) == 1 { // method rule: receiver and argument
 				dc.Orig = "fmt.Sprint(" + l.Text(ce.Fun.(*ast.SelectorExpr).X) + ") == fmt.Sprint(" + l.Text(ce.Args[0]) + ")"
 			} else {
-				dc.Orig = "fmt.Sprint(" + l.Text(ce.Args[0]) + ") == fmt.Sprint(" + l.Text(ce.Args[1]) + ")"
+				// the duplicated pair: the first two adjacent arguments with the same text
+				i := 0
+				for j := 0; j+1 < len(ce.Args); j++ {
+					if l.Text(ce.Args[j]) == l.Text(ce.Args[j+1]) {
+						i = j
+						break
+					}
+				}
+				dc.Orig = "fmt.Sprint(" + l.Text(ce.Args[i]) + ") == fmt.Sprint(" + l.Text(ce.Args[i+1]) + ")"
 			}
 			dc.Expect = "true"
 		}
@@ -541,14 +589,16 @@ func runExprClaims(meta *common.Meta, seed int64, outDir string, n int) {
 	}
 }
 
-var outsideFragmentRe = regexp.MustCompile(`\b(ms|mi|mm|ma|pa|w|gxs|fa|mc|mc2|mf|mg|fmf|vv|it|val|gn|bumpG|func)\b`)
+// operands the model has no counterpart for: maps, pointers to arrays, complex numbers, opaque calls returning a
+// defined type, struct values with methods, package variables changed by calls, closures, interface-typed fields
+var outsideFragmentRe = regexp.MustCompile(`\b(mm|pa|gxs|fa|mc|mc2|fmf|vv|it|val|gn|bumpG|func|refill|err)\b`)
 
 var impureCallRe = regexp.MustCompile(`\b(fi|gi|hi|fu|ff|hf|fs|fb|fbs|fxs|fmf|Next)\(`)
 var mutatingRe = regexp.MustCompile(`refill\(\)|bumpG\(\)|func\(\) bool`)
 
 // findFlagged locates the expression a diagnostic is about: the outermost node of the right kind starting at pos.
 func findFlagged(l *exprgen.Linted, root ast.Expr, pos token.Pos, checker, msg string) ast.Expr {
-	var found ast.Expr
+	var found, dupFallback ast.Expr
 	ast.Inspect(root, func(n ast.Node) bool {
 		if found != nil || n == nil {
 			return false
@@ -565,7 +615,7 @@ func findFlagged(l *exprgen.Linted, root ast.Expr, pos token.Pos, checker, msg s
 		case "dupArg":
 			if ce, ok := e.(*ast.CallExpr); ok {
 				_, isSel := ce.Fun.(*ast.SelectorExpr)
-				if len(ce.Args) == 2 || (len(ce.Args) == 1 && isSel) {
+				if (len(ce.Args) >= 2 && len(ce.Args) <= 4) || (len(ce.Args) == 1 && isSel) {
 					found = e
 				}
 			}
@@ -583,14 +633,23 @@ func findFlagged(l *exprgen.Linted, root ast.Expr, pos token.Pos, checker, msg s
 						}
 					}
 				case "dupSubExpr":
-					if strings.Contains(msg, "`"+b.Op.String()+"`") && l.Text(b.X) == l.Text(b.Y) {
-						found = e
+					// the binary expression with the operator the message names; several may start at pos
+					// (`a - a == a`): prefer the one whose operands are textually identical
+					if strings.Contains(msg, "`"+b.Op.String()+"`") {
+						if l.Text(b.X) == l.Text(b.Y) {
+							found = e
+						} else if dupFallback == nil {
+							dupFallback = e
+						}
 					}
 				}
 			}
 		}
 		return found == nil
 	})
+	if found == nil {
+		return dupFallback
+	}
 	return found
 }
 
@@ -888,6 +947,7 @@ type nvrCase struct {
 	fn, cond, x, y, op string
 	rets               []string
 	pre                []string // statements before the return
+	pro                string   // statements before the if (a declaration that shadows nil)
 	resT, final        string
 	msgs               []string
 }
@@ -961,6 +1021,23 @@ func runNilValReturn(meta *common.Meta, seed int64, outDir string) {
 		c.fn = fmt.Sprintf("n%d", len(cases))
 		cases = append(cases, c)
 	}
+	// `nil` is matched by its spelling: the same shapes under a local variable named nil (a non-nil value the
+	// checked operand is equal to)
+	for _, sh := range []struct{ x, resT, pro string }{
+		{"pe", "error", "nil := pe"}, {"pe", "*myE", "nil := pe"}, {"pe", "interface{}", "nil := pe"},
+		{"w.err", "error", "w.err = myErr{}; nil := error(myErr{})"},
+	} {
+		for _, op := range []string{"==", "!="} {
+			for _, pre := range [][]string{nil, {"a++"}} {
+				c := &nvrCase{resT: sh.resT, final: "nil", x: sh.x, y: "nil", op: op, cond: sh.x + " " + op + " nil", rets: []string{sh.x}, pre: pre, pro: sh.pro}
+				if _, err := exprgen.Load("p.go", lintHeader+exprgen.LintPreamble+renderNvr("f", c)); err != nil {
+					continue
+				}
+				c.fn = fmt.Sprintf("n%d", len(cases))
+				cases = append(cases, c)
+			}
+		}
+	}
 	var src strings.Builder
 	src.WriteString(lintHeader + exprgen.LintPreamble)
 	for _, c := range cases {
@@ -995,7 +1072,13 @@ func runNilValReturn(meta *common.Meta, seed int64, outDir string) {
 			continue
 		}
 		c := byFn[fd.Name.Name]
-		ifs := fd.Body.List[0].(*ast.IfStmt)
+		var ifs *ast.IfStmt
+		for _, st := range fd.Body.List {
+			if x, ok := st.(*ast.IfStmt); ok {
+				ifs = x
+				break
+			}
+		}
 		cond := ifs.Cond.(*ast.BinaryExpr)
 		// oracle: run the if-body up to the return and observe whether the checked value is nil there
 		if len(c.msgs) > 0 {
@@ -1004,12 +1087,17 @@ func runNilValReturn(meta *common.Meta, seed int64, outDir string) {
 			if pre != "" {
 				pre += "; "
 			}
-			text := "func() bool { if " + c.cond + " { " + pre + "return (" + l.Text(cond.X) + ") == nil }; return true }()"
+			pro := c.pro
+			if pro != "" {
+				pro += "; "
+			}
+			// nil-ness is judged by a helper declared where `nil` is the predeclared identifier
+			text := "func() bool { " + pro + "if " + c.cond + " { " + pre + "return verifIsNil(" + l.Text(cond.X) + ") }; return true }()"
 			dcs = append(dcs, &exprgen.DiffCase{ID: len(dcs), Kind: "expr", Orig: text, Expect: "true", Inputs: exprgen.Grid(rg, text, 40), Tag: c})
 			// "replace X with nil": the function's result as the caller sees it, before and after the replacement
 			if len(c.rets) == 1 && c.rets[0] == l.Text(cond.X) {
 				fn := func(ret string) string {
-					return "func() string { r := func() " + c.resT + " { if " + c.cond + " { " + pre + "return " + ret + " }; return " + c.final +
+					return "func() string { r := func() " + c.resT + " { " + pro + "if " + c.cond + " { " + pre + "return " + ret + " }; return " + c.final +
 						" }(); return fmt.Sprintf(\"%v|%t\", r, r == nil) }()"
 				}
 				dcs = append(dcs, &exprgen.DiffCase{ID: len(dcs), Kind: "expr", Orig: fn(c.rets[0]), New: fn("nil"), Inputs: exprgen.Grid(rg, text, 40), Tag: c})
@@ -1066,6 +1154,9 @@ func runNilValReturn(meta *common.Meta, seed int64, outDir string) {
 		if len(c.pre) > 0 {
 			class = "mutated-before-return"
 		}
+		if strings.Contains(c.pro, "nil :=") {
+			class = "shadowed-nil"
+		}
 		if m.Case.Expect == "" {
 			// the suggested replacement changes what the caller gets
 			meta.Fail("C12/nilValReturn/typed-nil-in-interface",
@@ -1073,8 +1164,8 @@ func runNilValReturn(meta *common.Meta, seed int64, outDir string) {
 				map[string]interface{}{"cond": c.cond, "result_type": c.resT, "input": m.Input, "original": m.Orig, "with_nil": m.New})
 			continue
 		}
-		meta.Fail("C12/nilValReturn/"+class, fmt.Sprintf("nilValReturn claims the returned %s is nil in `if %s { %s; return %s }`, but it is not nil at the return (%s)", c.x, c.cond, strings.Join(c.pre, "; "), strings.Join(c.rets, ", "), m.Orig),
-			map[string]interface{}{"cond": c.cond, "body": append(append([]string{}, c.pre...), "return "+strings.Join(c.rets, ", ")), "input": m.Input, "observed": m.Orig})
+		meta.Fail("C12/nilValReturn/"+class, fmt.Sprintf("nilValReturn claims the returned %s is nil in `%s; if %s { %s; return %s }`, but it is not nil at the return (%s)", c.x, c.pro, c.cond, strings.Join(c.pre, "; "), strings.Join(c.rets, ", "), m.Orig),
+			map[string]interface{}{"prologue": c.pro, "cond": c.cond, "body": append(append([]string{}, c.pre...), "return "+strings.Join(c.rets, ", ")), "input": m.Input, "observed": m.Orig})
 	}
 }
 
@@ -1083,7 +1174,11 @@ func renderNvr(name string, c *nvrCase) string {
 	for _, p := range c.pre {
 		pre += "\t\t" + p + "\n"
 	}
-	return fmt.Sprintf("func %s(%s) %s {\n\tif %s {\n%s\t\treturn %s\n\t}\n\treturn %s\n}\n", name, exprgen.Params, c.resT, c.cond, pre, strings.Join(c.rets, ", "), c.final)
+	pro := ""
+	if c.pro != "" {
+		pro = "\t" + c.pro + "\n"
+	}
+	return fmt.Sprintf("func %s(%s) %s {\n%s\tif %s {\n%s\t\treturn %s\n\t}\n\treturn %s\n}\n", name, exprgen.Params, c.resT, pro, c.cond, pre, strings.Join(c.rets, ", "), c.final)
 }
 
 // ---------------------------------------------------------------- the claim rules as the binary executes them
